@@ -39,8 +39,15 @@ def run_lifecycle(sc):
     params = {'blocksize': sc['bs'], 'stmin': sc['stmin']}
     peer = None
     if kind == 'tl':
-        L = isotp.TransportLayer(rx_a, lambda m: qb.put(m), core.make_address(a), lambda e: errors.append(type(e).__name__), params,
+        rxfn_a = rx_a
+        if sc.get('legacy'):
+            def rxfn_a():       # v1.x style rxfn: no timeout parameter, never blocks
+                return rx_a(0)
+        L = isotp.TransportLayer(rxfn_a, lambda m: qb.put(m), core.make_address(a), lambda e: errors.append(type(e).__name__), params,
                                  read_timeout=read_timeout)
+        if sc.get('idle_sleep') is not None:
+            # the user's own polling periods: must not stretch the time the reading thread needs to notice a stop request
+            L.set_sleep_timing(idle=sc['idle_sleep'], wait_fc=0.005)
         if sc['peer']:
             peer = isotp.TransportLayer(rx_b, lambda m: qa.put(m), core.make_address(b), None, {'blocksize': 4}, read_timeout=0.02)
     else:
@@ -161,8 +168,12 @@ class C14(PropBase):
         else:
             ops = [rng.choice(OPS[:9]) for _ in range(rng.randrange(3, 9))]
         a, b = gen.rand_addr_pair(rng, asym_prob=0.05)
-        return {'ops': [], 'ops_list': ops, 'addrs': (a, b), 'kind': rng.choice(['tl', 'tl', 'notifier']), 'peer': rng.random() < 0.6,
-                'read_timeout': rng.choice([0.005, 0.05, 0.3]), 'bs': rng.choice([0, 2, 8]), 'stmin': rng.choice([0, 0, 2]), 'seed': rng.randrange(1 << 30)}
+        sc = {'ops': [], 'ops_list': ops, 'addrs': (a, b), 'kind': rng.choice(['tl', 'tl', 'notifier']), 'peer': rng.random() < 0.6,
+              'read_timeout': rng.choice([0.005, 0.05, 0.3]), 'bs': rng.choice([0, 2, 8]), 'stmin': rng.choice([0, 0, 2]), 'seed': rng.randrange(1 << 30)}
+        if sc['kind'] == 'tl' and rng.random() < 0.4:
+            sc['legacy'] = rng.random() < 0.7
+            sc['idle_sleep'] = rng.choice([0.001, 0.2, 1.6, 3.0])
+        return sc
 
     def enumerate(self, tier):
         """EVERY operation sequence of length <= 2 (<= 3 in the thorough tier) on both classes, plus every sequence start,start,x,stop"""
@@ -177,6 +188,13 @@ class C14(PropBase):
                 k += 1
                 yield {'ops': [], 'ops_list': list(ops), 'addrs': (a, b), 'kind': kind, 'peer': kind == 'notifier' and len(ops) >= 4,
                        'read_timeout': 0.05, 'bs': 2, 'stmin': 0, 'seed': 1000 + k}
+        # legacy rxfn (no timeout parameter) / user polling periods far above the join timeout of stop()
+        for legacy in (True, False):
+            for idle in (1.6, 3.0):
+                for ops in (['start', 'sleep', 'stop'], ['start', 'send_sf', 'sleep', 'stop'], ['start', 'stop', 'start', 'sleep', 'stop']):
+                    k += 1
+                    yield {'ops': [], 'ops_list': list(ops), 'addrs': (a, b), 'kind': 'tl', 'peer': False, 'read_timeout': 0.05, 'bs': 2,
+                           'stmin': 0, 'seed': 1000 + k, 'legacy': legacy, 'idle_sleep': idle}
 
     def run_impl(self, sc):
         return run_lifecycle(sc)
@@ -222,12 +240,15 @@ class C14(PropBase):
         return out_line
 
     def nontrivial_key(self, sc, lines_in, impl_out):
-        return (sc['kind'], sc['peer'], tuple(sc['ops_list']))
+        return (sc['kind'], sc['peer'], tuple(sc['ops_list']), sc.get('legacy'), sc.get('idle_sleep'))
 
     def tally(self, dist, sc, lines_in, impl_out):
         for op in sc['ops_list']:
             dist['op:' + op] = dist.get('op:' + op, 0) + 1
         dist['kind:' + sc['kind']] = dist.get('kind:' + sc['kind'], 0) + 1
+        if sc.get('idle_sleep') is not None:
+            k = 'user_sleep_timing:%s:%s' % ('legacy_rxfn' if sc.get('legacy') else 'blocking_rxfn', sc['idle_sleep'])
+            dist[k] = dist.get(k, 0) + 1
 
 
 PROP = C14()
